@@ -93,13 +93,18 @@ def lazyBracket : Str → Str → Option (Str × Str)
     if c = ']' && (match r with | x :: _ => isAlnum x | [] => false) then some (acc.reverse, r)
     else lazyBracket r (c :: acc)
 
+/-- the optional `\*?` after the fingerprint (greedy: consumed when present) -/
+def dropStar : Str → Str
+  | '*' :: r => r
+  | r => r
+
 def matchKeyRecord (s : Str) : Option (Str × Str × Str) :=
   match s with
   | '[' :: r =>
     let xfp := r.take 8
     if xfp.length ≠ 8 ∨ ¬ xfp.all isHexLower then none else
     let r := r.drop 8
-    let r := match r with | '*' :: r' => r' | _ => r
+    let r := dropStar r
     let line := r.takeWhile (· ≠ '\n')
     (lazyBracket line []).map fun (path, xpub) => (xfp, path, xpub)
   | _ => none
@@ -158,26 +163,30 @@ def descriptorText (m : Nat) (krs : List KeyRecord) : Str :=
 section
 variable (hash256 : Bytes → Bytes)
 
-/-- one iteration of the validation loop of __init__: the record to save and the network of its xpub -/
-def checkRecord (kr : KeyRecord) : Option (KeyRecord × String) := do
+/-- one iteration of the validation loop of __init__: the record to save and the network of its xpub.
+    `HDPublicKey(**attrs without pub_version).xpub()` is the serialisation with the default version of the
+    parsed network. -/
+def checkRecord (kr : KeyRecord) : Option (KeyRecord × String) :=
   if ¬ isValidBip32Path kr.path then none
-  if ¬ isValidXfpHex kr.xfp then none
-  let pk ← HDPub.parse hash256 kr.xpubParent
-  -- HDPublicKey(**attrs without pub_version).xpub(): the default version of the parsed network
-  let norm ← mkPub pk.point pk.chainCode pk.depth pk.parentFp pk.childNumber pk.network none
-  let xpub ← norm.xpub hash256 none
-  pure ({ kr with xpubParent := xpub }, pk.network)
+  else if ¬ isValidXfpHex kr.xfp then none
+  else
+    (HDPub.parse hash256 kr.xpubParent).bind fun pk =>
+      (mkPub pk.point pk.chainCode pk.depth pk.parentFp pk.childNumber pk.network none).bind fun norm =>
+        (norm.xpub hash256 none).map fun xpub => ({ kr with xpubParent := xpub }, pk.network)
+
+/-- `if network is None: network = n` / `elif n != network: raise` -/
+def mergeNet (net : Option String) (n : String) : Option String :=
+  match net with
+  | none => some n
+  | some n0 => if n ≠ n0 then none else some n0
 
 /-- the loop over key_records with the network consistency check -/
 def checkRecords : List KeyRecord → Option String → Option (List KeyRecord × Option String)
   | [], net => some ([], net)
-  | kr :: rest, net => do
-    let (saved, n) ← checkRecord hash256 kr
-    let net' ← match net with
-      | none => some n
-      | some n0 => if n ≠ n0 then none else some n0
-    let (more, netF) ← checkRecords rest (some net')
-    pure (saved :: more, netF)
+  | kr :: rest, net =>
+    (checkRecord hash256 kr).bind fun (saved, n) =>
+      (mergeNet net n).bind fun net' =>
+        (checkRecords rest (some net')).map fun (more, netF) => (saved :: more, netF)
 
 /-- P2WSHSortedMulti.__init__ up to and including `calculated_checksum = calc_core_checksum(descriptor_text)` -/
 def constructCore (m : Int) (krs : List KeyRecord) (sortKeyRecords : Bool) : Option Desc :=
@@ -204,34 +213,53 @@ def Desc.repr (d : Desc) : Str := d.text ++ '#' :: d.checksum
 
 /-! ### P2WSHSortedMulti.parse -/
 
-/-- positions at which `pat` occurs in `s` (ascending), counted from `i` -/
-def occurrences (pat : Str) : Str → Nat → List Nat
-  | [], i => if pat = [] then [i] else []
-  | c :: r, i => (if pat.isPrefixOf (c :: r) then [i] else []) ++ occurrences pat r (i + 1)
-
 def isBech32Char (c : Char) : Bool := "qpzry9x8gf2tvdw0s3jn54khce6mua7l".toList.contains c
+
+/-- greedy `(.*)\)\)`: split at the LAST occurrence of `))` — (what precedes it, what follows it) -/
+def splitLastParens : Str → Option (Str × Str)
+  | [] => none
+  | c :: r =>
+    match splitLastParens r with
+    | some (a, b) => some (c :: a, b)
+    | none =>
+      if c = ')' then
+        match r with
+        | ')' :: b => some ([], b)
+        | _ => none
+      else none
+
+/-- the optional group `(\#[qpzry9x8gf2tvdw0s3jn54khce6mua7l]{8})?` right after the `))` (without its `#`) -/
+def checksumGroup (rest : Str) : Option Str :=
+  match rest with
+  | '#' :: t => if (t.take 8).length = 8 ∧ (t.take 8).all isBech32Char then some (t.take 8) else none
+  | _ => none
 
 /-- after the literal `wsh(sortedmulti(`: `([0-9]*),(.*)\)\)(\#[…]{8})?` — (m digits, key records, checksum group) -/
 def matchAfterLiteral (r : Str) : Option (Str × Str × Option Str) :=
   let digits := r.takeWhile Char.isDigit
   match r.drop digits.length with
   | ',' :: body =>
-    match (occurrences [')', ')'] body 0).getLast? with
+    match splitLastParens body with
     | none => none
-    | some j =>
-      let rest := body.drop (j + 2)
-      let cs : Option Str := match rest with
-        | '#' :: t => if (t.take 8).length = 8 ∧ (t.take 8).all isBech32Char then some (t.take 8) else none
-        | _ => none
-      some (digits, body.take j, cs)
+    | some (krs, rest) => some (digits, krs, checksumGroup rest)
   | _ => none
 
-/-- `re.match(r".*wsh\(sortedmulti\(([0-9]*),(.*)\)\)(\#[…]{8})?.*", s)`: the first `.*` is greedy, so
-    the last viable occurrence of the literal wins; `.` does not match a newline -/
+/-- the literal text of the pattern -/
+def wshLiteral : Str := "wsh(sortedmulti(".toList
+
+/-- greedy leading `.*`: the LAST position at which the literal occurs and the rest of the pattern matches wins
+    (later positions are tried first) -/
+def matchFromLast : Str → Option (Str × Str × Option Str)
+  | [] => none
+  | c :: r =>
+    match matchFromLast r with
+    | some x => some x
+    | none => if wshLiteral.isPrefixOf (c :: r) then matchAfterLiteral ((c :: r).drop wshLiteral.length) else none
+
+/-- `re.match(r".*wsh\(sortedmulti\(([0-9]*),(.*)\)\)(\#[…]{8})?.*", s)`; `.` does not match a newline, so
+    everything happens on the first line -/
 def matchDescriptor (s : Str) : Option (Str × Str × Option Str) :=
-  let line := s.takeWhile (· ≠ '\n')
-  let lit := "wsh(sortedmulti(".toList
-  (occurrences lit line 0).reverse.findSome? fun i => matchAfterLiteral (line.drop (i + lit.length))
+  matchFromLast (s.takeWhile (· ≠ '\n'))
 
 section
 variable (hash256 : Bytes → Bytes) (hmac : Bytes → Bytes → Bytes) (h160 : Bytes → Bytes)
